@@ -77,6 +77,9 @@ def str_case(rng, w, n, signed, r):
         s[pos:pos] = bad
         return "invalid", bytes(s)
     if c == 12:
+        if rng.random() < 0.5:
+            k = rng.choice([1, 7, W - 1, W, W + 1, 2 * W])
+            return "zeros-then-sign", ("0" * k + rng.choice("+-") + numeral(rng.randrange(1, r ** 3), r)).encode()
         return "double-sign", rng.choice([b"+-1", b"--1", b"-+1", b"++0", b"1-", b"1+"])
     if c == 13:
         return "unsigned-minus", b"-" + numeral(rng.randrange(3), r).encode()
